@@ -17,6 +17,9 @@ def cases(tier, seed):
         if any(b == -1 and len(k) > 1 for (_p, _a, b, k) in sh.relations(m)) and \
                 not any(b == -1 and len(k) == 1 for (_p, _a, b, k) in sh.relations(m)):
             yield ('S', m)
+    # analyse -> edit the same model object in place -> analyse again with the same operation object
+    for m in sp.structures_upto(4 if tier == 'quick' else 5):
+        yield ('SE', m)
     ksets = list(cm.k1()) + list(cm.k2_subset())
     for n in range(2, n_ctc + 1):
         for m in sp.structures(n):
@@ -45,3 +48,35 @@ reduce = cm.reduce_model_case
 
 def nontrivial(case):
     return cm.has_group_or_ctc(case[1])
+
+
+def edit_history(model, op_class, oracle):
+    """For every in-place edit: execute, edit the same model object, execute again with the same
+    operation object; the second result is judged by `oracle(result, edited_shadow)`."""
+    from .. import build as bd
+    from ..engine import Fail
+    from .c03 import inplace_edits
+    for (what, edit, em) in inplace_edits(model):
+        if any(sh.tree_names(t) for _n, t in em[1]):
+            continue
+        fm, fails = cm.built(model)
+        if fails:
+            return fails
+        op = op_class()
+        try:
+            op.execute(fm).get_result()
+            edit(fm)
+            if bd.observe(fm) != em:
+                raise AssertionError('in-place edit did not give the expected model: %s' % what)
+            res = op.execute(fm).get_result()
+        except AssertionError:
+            raise
+        except Exception as exc:  # noqa: BLE001
+            return [Fail('after-inplace-edit:raises:%s' % type(exc).__name__, {'edit': what, 'msg': str(exc)[:200]})]
+        out = oracle(res, em)
+        for f in out:
+            f.clause = 'after-inplace-edit:' + f.clause
+            f.detail = {'edit': what, 'info': f.detail}
+        if out:
+            return out
+    return []
